@@ -260,9 +260,20 @@ def run(ctx):
         if o.kind != "return":
             continue
         evs = o.path.events
+        file_seen = False
         for i, e in enumerate(evs):
             if e[0] == "coll" and e[1] == "insert" and e[2][-1:] == ("symbol_table",):
                 key, val = e[3][0], e[3][1]
+                from_file = "strname" in repr(val) and "st_name" in repr(val)
+                if not from_file and file_seen:
+                    # a name that does not come from the file is stored after the file's symbols: unless the slot was
+                    # tested first it replaces whatever symbol the file defines at that address
+                    tested = any(x[0] == "coll" and x[1] in ("contains_key", "get", "entry") and x[2][-1:] == ("symbol_table",)
+                                 and x[3][:1] == (key,) for x in evs[:i])
+                    if not tested:
+                        sbad = sbad or "a name that is not read from the file is stored under %s after the file's symbols were " \
+                                       "imported: it replaces the file's own symbol at that address" % A.show(key)[:40]
+                file_seen = file_seen or from_file
                 if U.strip(key) == ("field", ("field", EM.ELF, "ehdr"), "e_entry"):
                     continue  # the synthetic _start entry
                 nins += 1
